@@ -36,12 +36,13 @@ Definition isnan (a : xnum) : bool := match a with XNaN => true | _ => false end
 
 Record param := mkparam { p_name : id; p_init : xnum; p_lower : xnum; p_upper : xnum; p_fix : bool }.
 
-(* Parameter.create: float(init); NaN init refused; None bounds become -inf / +inf;
-   `if init < lower: raise`, `if init > upper: raise` *)
+(* Parameter.create: float(init); NaN init refused; None bounds become -inf / +inf; NaN bounds refused
+   (since /repo caae827); `if init < lower: raise`, `if init > upper: raise` *)
 Definition param_create (n : id) (i : xnum) (l u : option xnum) (f : bool) : option param :=
   if isnan i then None else
   let l' := match l with None => XNegInf | Some x => x end in
   let u' := match u with None => XPosInf | Some x => x end in
+  if isnan l' || isnan u' then None else
   if xlt i l' then None else
   if xlt u' i then None else Some (mkparam n i l' u' f).
 
@@ -55,7 +56,8 @@ Definition param_replace (p : param) (n : option id) (i : option xnum) (l u : op
                (match f with Some x => x | None => p_fix p end).
 
 Definition param_wf (p : param) : bool := xle (p_lower p) (p_init p) && xle (p_init p) (p_upper p).
-(* guard: the bounds handed to create are not NaN (create does not test them) *)
+(* the bounds handed to create are not NaN (before /repo caae827 create did not test them; kept for the
+   regression examples) *)
 Definition g_bounds_not_nan (l u : option xnum) : bool :=
   negb (match l with Some x => isnan x | None => false end) &&
   negb (match u with Some x => isnan x | None => false end).
@@ -97,14 +99,15 @@ Definition params_getitem (l : list param) (names : list id) : list param :=
 
 (* a distribution is the list of its variable names *)
 Definition dist := list id.
-(* RandomVariables.create(dists): the uniqueness loop runs only when `dists` is a sequence *)
+(* RandomVariables.create(dists): a single distribution becomes a 1-tuple and runs through the same uniqueness
+   loop as a sequence (since /repo 1b723c6) *)
 Definition rvs_create_seq (ds : list dist) : option (list dist) :=
   if names_ok (concat ds) then Some ds else None.
-Definition rvs_create_single (d : dist) : option (list dist) := Some [d].
-(* RandomVariables.__add__(Distribution): RandomVariables(self._dists + (other,), ...) — no check *)
-Definition rvs_add (r : list dist) (d : dist) : list dist := r ++ [d].
+Definition rvs_create_single (d : dist) : option (list dist) := rvs_create_seq [d].
+(* RandomVariables.__add__(Distribution): self.replace(dists=self._dists + (other,)), i.e. create *)
+Definition rvs_add (r : list dist) (d : dist) : option (list dist) := rvs_create_seq (r ++ [d]).
 Definition rvs_wf (r : list dist) : bool := names_ok (concat r).
-(* guard for rvs + dist: the names of the added distribution are fresh and distinct *)
+(* the names of the added distribution are fresh and distinct (characterises when rvs + dist is accepted) *)
 Definition g_fresh_names (r : list dist) (d : dist) : bool :=
   names_ok d && negb (existsb (fun x => memp x (concat r)) d).
 
